@@ -147,6 +147,21 @@ fn tlv_positions(b: &[u8], base: usize, out: &mut Vec<(usize, usize, usize)>) {
     }
 }
 
+/// Every nested element of a well-formed message cut off inside its own header, at the very end of all the elements that contain it
+/// (whose lengths are adjusted): the outer frame is complete, the message is undecodable. Short-form lengths only.
+pub fn header_cuts(enc: &[u8]) -> Vec<Vec<u8>> {
+    let mut pos = vec![]; tlv_positions(enc, 0, &mut pos);
+    let mut out = vec![];
+    for &(off, _h, _c) in pos.iter().filter(|x| x.0 > 0) {
+        for tail in [vec![], vec![0x82u8], vec![0x81], vec![0x05], vec![0x84, 0x00]] {
+            let mut e = enc[..off + 1].to_vec(); e.extend_from_slice(&tail);
+            let end = e.len(); let mut ok = true;
+            for &(eo, eh, ec) in &pos { if eo < off && off < eo + eh + ec { if eh != 2 || end - (eo + 2) > 127 { ok = false; break; } e[eo + 1] = (end - (eo + 2)) as u8; } }
+            if ok { out.push(e); }
+        }
+    }
+    out
+}
 fn tree_mutations(t: &StructureTag, out: &mut Vec<StructureTag>) {
     // every single-field mutation of every node
     fn nodes(t: &StructureTag, path: &mut Vec<usize>, acc: &mut Vec<Vec<usize>>) {
@@ -219,6 +234,9 @@ pub fn gen_hostile(rng: &mut Rng, n: usize, out: &mut Vec<String>) {
         if rng.chance(1, 2) { b[0] = 0x30; if k > 1 && rng.chance(1, 2) { b[1] = (k - 2) as u8; } }
         out.push(format!("frame {} -", hex(&b)));
     }
+    // nested elements cut inside their header at the end of their parents (complete outer frame)
+    { let mut hc = vec![]; for m in corp.iter().take(12) { hc.extend(header_cuts(&encode_with(m, rng, false))); }
+      let stride = (hc.len() / (budget / 6).max(1)).max(1); for e in hc.iter().step_by(stride) { out.push(format!("frame {} -", hex(e))); } }
     // the witnesses of findings F2..F4 (also kept in corpus/C11)
     for w in ["3000", "3003020101", "300504010161 00", "300430821000", "300e0201016100a007300504017801 00"] {
         out.push(format!("frame {} -", w.replace(' ', "")));
